@@ -266,12 +266,17 @@ pub(super) fn on_access<T, const CAP: usize>(
         // Zero-size value with a destructor: ownership is tracked by (offset, type)
         let key = ((offset as u64 + 1) << 16) | hash as u64;
         let slots = &record.zero_size;
+        if slots[0].load(Ordering::Relaxed) == u64::MAX {
+            // more values than the table can hold: nothing is checked for this record
+            return;
+        }
         let found = slots.iter().find(|s| s.load(Ordering::Relaxed) == key);
         match access {
             Access::Write => {
                 // Several zero-size values of one type may share an offset: a multiset
-                if let Some(free) = slots.iter().find(|s| s.load(Ordering::Relaxed) == 0) {
-                    free.store(key, Ordering::Relaxed);
+                match slots.iter().find(|s| s.load(Ordering::Relaxed) == 0) {
+                    Some(free) => free.store(key, Ordering::Relaxed),
+                    None => slots[0].store(u64::MAX, Ordering::Relaxed),
                 }
             }
             Access::Read => match found {
@@ -340,9 +345,10 @@ pub(super) fn on_access<T, const CAP: usize>(
 pub(super) fn on_buffer_drop<const CAP: usize>(record: &RecordMaybeUninit<CAP>) {
     BUFFER_DROPS.fetch_add(1, Ordering::Relaxed);
     let base = record.data.as_ptr() as usize;
+    let overflowed = record.zero_size[0].load(Ordering::Relaxed) == u64::MAX;
     for slot in record.zero_size.iter() {
         let key = slot.load(Ordering::Relaxed);
-        if key != 0 {
+        if key != 0 && !overflowed {
             report(Event {
                 kind: EventKind::LeakAtBufferDrop,
                 access: Access::BufferDrop,
